@@ -11,6 +11,9 @@ class DataContainer(dict):
         self._allow_compute = dict({k: True for k in self.keys()})
 
     def add(self, data: DataArray, name: str, allow_compute: bool = True) -> None:
+        # Work on a shallow copy: renaming / re-attributing the stored entry must not
+        # alter the caller's object (e.g. the arrays of a model handed to a rotator)
+        data = data.copy(deep=False)
         data.name = name
         super().__setitem__(name, data)
         self._allow_compute[name] = True if allow_compute else False
